@@ -22,6 +22,8 @@ def patterns(alpha, maxlen, minlen=0):
 def text_alpha_for(p, mode):
     if mode == 'full':
         return SIGMA
+    if mode == 'astral':
+        return ['\U0001F600', 'a', 'b']
     syms = []
     for c in p:
         if c not in syms and c not in '%_':
@@ -130,6 +132,10 @@ def build(tier):
         plans.append(('py', 'reduced', list(patterns(['a', '%', '_', '.', '\\', '['], 5, 5)), 5))
         plans.append(('js', 'full', list(patterns(SIGMA, 3)), 3))
         plans.append(('js', 'reduced', list(patterns(SIGMA, 4, 4)), 4))
+    # non-BMP characters: one code point, two UTF-16 units (the JS twin counts units)
+    astral = ['\U0001F600', 'a', '%', '_']
+    plans.append(('py', 'astral', list(patterns(astral, 3)), 3))
+    plans.append(('js', 'astral', list(patterns(astral, 3)), 3))
     shards = []
     for plan in plans:
         lang, mode, pats, tmax = plan[:4]
